@@ -151,7 +151,7 @@ def source(spec):
         cuts = [round(i * len(pdf) / n) for i in range(1, n)]
         parts = cut(pdf, cuts)
         divs = [pdf.index[e] for e in [0] + cuts] + [pdf.index[-1]]
-        return dx.from_delayed([delayed(_ident)(p) for p in parts], meta=pdf.iloc[:0], divisions=tuple(divs), prefix="stage")
+        return dx.from_delayed([delayed(_ident, pure=True)(p) for p in parts], meta=pdf.iloc[:0], divisions=tuple(divs), prefix="stage")
     if lay[0] == "s":
         # the user's frame has its rows in another order; from_pandas(sort=True) sorts them (same content as "<table>:<n>")
         perm = [(i * 5 + 3) % len(pdf) for i in range(len(pdf))] if len(pdf) % 5 else list(range(len(pdf) - 1, -1, -1))
